@@ -345,6 +345,17 @@ func run(c Case) kit.Outcome {
 	}
 	time.Sleep(time.Millisecond)
 	for i, sp := range c.Streams {
+		// the open acknowledgement precedes the start of the handler: a stream nobody wrote to
+		// gives no other sign that its handler is running, so wait for it (bounded)
+		deadline := time.Now().Add(bound)
+		for s.Env.StreamSlot(i).Started == 0 {
+			if time.Now().After(deadline) {
+				o := kit.Fail("handler-count", "stream %d: its open was acknowledged but the handler had not started %v later", i, bound)
+				o.Timing = true
+				return o
+			}
+			time.Sleep(100 * time.Microsecond)
+		}
 		rec := s.Env.StreamSlot(i)
 		if rec.Started != 1 {
 			return kit.Fail("handler-count", "stream %d: handler started %d times", i, rec.Started)
